@@ -250,6 +250,28 @@ class Fn:
         self._defs = d
         return d
 
+    def alias_root(self, l, depth=0):
+        """the parameter a local is a plain copy / reborrow of (`_9 = &mut (*_1)`, `_17 = move _9`), else None.  The
+        parameters of a helper that was spliced in are such aliases of the caller's values."""
+        if 1 <= l <= self.arg_count:
+            return l
+        if depth > 12:
+            return None
+        ds = self.defs().get(l, [])
+        if len(ds) != 1 or ds[0][0] != 'assign':
+            return None
+        rv = ds[0][3]
+        pl = None
+        if rv['k'] == 'use' and rv['op'].get('k') in ('copy', 'move'):
+            pl = rv['op']['place']
+        elif rv['k'] in ('ref', 'rawptr'):
+            pl = rv['place']
+        elif rv['k'] == 'cast' and rv['op'].get('k') in ('copy', 'move'):
+            pl = rv['op']['place']
+        if pl is None or any(e != 'deref' for e in pl['proj']):
+            return None
+        return self.alias_root(pl['local'], depth + 1)
+
     def single_def(self, local):
         ds = self.defs().get(local, [])
         return ds[0] if len(ds) == 1 else None
